@@ -530,10 +530,7 @@ class ConnModel:
                 ("the woken waker leaves the table, every other stream's waker stays registered",
                  z3.BoolVal(left == [k for k in ids if k != target]))]
 
-    def check_stream_event(self, p):
-        """the worker's reaction to one per-stream event of quinn-proto: the slice of ConnectionInner::run's coroutine body between
-        `state.conn.poll()` answering Some(event) and the next `state.conn.poll()`"""
-        W, I = self.world(p)
+    def _event_slice(self):
         c = [f for k, f in self.fns.items() if k.startswith("connection::") and k.endswith("::run::{closure#0}") and "Poll<()>" in f.sig]
         if len(c) != 1:
             raise Unsupported("cannot locate ConnectionInner::run's coroutine body (%d)" % len(c))
@@ -557,6 +554,13 @@ class ConnModel:
             raise Unsupported("run(): cannot identify a local holding the state guard")
         # run() takes the guard more than once (one local per lock scope); the slice starts inside one scope, so every guard local is
         # bound to the same state
+        return fn, ev_local, start, poll_bb[0], guards
+
+    def check_stream_event(self, p):
+        """the worker's reaction to one per-stream event of quinn-proto: the slice of ConnectionInner::run's coroutine body between
+        `state.conn.poll()` answering Some(event) and the next `state.conn.poll()`"""
+        W, I = self.world(p)
+        fn, ev_local, start, poll_block, guards = self._event_slice()
         # state: every per-stream table holds a waker for stream 7 and one for stream 9
         st, _placed = self.state(p, populate=False)
         ws = {}
@@ -572,7 +576,7 @@ class ConnModel:
         k = p.choose(4, "stream event: Readable / Writable / Finished / Stopped, naming stream 7")
         ev = EnumV(3, [Cell(EnumV(1 + k, [Cell(("stream-id", 7)), Cell(("error-code",))]))])
         r = I.run_to_end(I.call_fn(fn, [None, None], p, start=start, init=dict({g: guard for g in guards}, **{ev_local: EnumV(1, [Cell(ev)])}),
-                                   stop=(poll_bb[0],)))
+                                   stop=(poll_block,)))
         self.encoded |= I.called
         if not (isinstance(r, tuple) and r and r[0] == "stopped-at"):
             raise Unsupported("run(): the event arm did not come back to the event loop (%r)" % (r,))
@@ -589,5 +593,49 @@ class ConnModel:
                                        for t in ("readable", "writable", "stopped")))))
         return obs
 
-    CHECKS = ["wake_stream", "stream_event", "terminate", "poll_recv_datagram", "poll_open_stream", "poll_accept_stream", "stream_stopped", "stream_received_reset",
+    def check_conn_event(self, p):
+        """the other arms of the same match: Opened / Available (per direction), DatagramReceived, DatagramsUnblocked, HandshakeDataReady,
+        Connected — same slice of ConnectionInner::run's coroutine body as stream_event"""
+        W, I = self.world(p)
+        fn, ev_local, start, poll_block, guards = self._event_slice()
+        st, placed = self.state(p)
+        st.f[self.idx("connected")].v = z3.BoolVal(False)
+        guard = Struct({0: Cell(Ref(Cell(Struct({0: Cell(st)}))))})
+        kinds = ["Opened", "Available", "DatagramReceived", "DatagramsUnblocked", "HandshakeDataReady", "Connected"]
+        k = p.choose(len(kinds), "event: " + " / ".join(kinds))
+        kind = kinds[k]
+        d = None
+        if kind in ("Opened", "Available"):
+            d = p.choose(2, "direction: bi / uni")
+            ev = EnumV(3, [Cell(EnumV(0 if kind == "Opened" else 5, [Cell(EnumV(d))]))])
+        else:
+            ev = EnumV({"DatagramReceived": 4, "DatagramsUnblocked": 5, "HandshakeDataReady": 0, "Connected": 1}[kind])
+        r = I.run_to_end(I.call_fn(fn, [None, None], p, start=start, init=dict({g: guard for g in guards}, **{ev_local: EnumV(1, [Cell(ev)])}),
+                                   stop=(poll_block,)))
+        self.encoded |= I.called
+        if not (isinstance(r, tuple) and r and r[0] == "stopped-at"):
+            raise Unsupported("run(): the event arm did not come back to the event loop (%r)" % (r,))
+
+        def half(name, dd):
+            ws = placed[name]
+            n = len(ws) // 2
+            return ws[:n] if dd == 0 else ws[n:]
+        need = {"Opened": lambda: half("stream_opened", d), "Available": lambda: half("stream_available", d),
+                "DatagramReceived": lambda: placed["datagram_received"], "DatagramsUnblocked": lambda: placed["datagrams_unblocked"],
+                "HandshakeDataReady": lambda: placed["on_handshake_data"], "Connected": lambda: placed["on_connected"]}[kind]()
+        where = {"Opened": "stream_opened[dir]", "Available": "stream_available[dir]", "DatagramReceived": "datagram_received",
+                 "DatagramsUnblocked": "datagrams_unblocked", "HandshakeDataReady": "on_handshake_data", "Connected": "on_connected"}[kind]
+        obs = []
+        for w in need:
+            obs.append(("%s event: every future parked in `%s` is woken exactly once" % (kind, where),
+                        z3.BoolVal(sum(1 for x in W.woken if x is w) == 1)))
+        held = [w for (_n, w) in self.holders(st)]
+        everyone = [w for ws in placed.values() for w in ws]
+        obs.append(("no waker leaves its table without being woken (an event never strands another future)",
+                    z3.BoolVal(all(any(h is w for h in held) or any(x is w for x in W.woken) for w in everyone))))
+        if kind == "Connected":
+            obs.append(("Connected event: the connection is marked connected", st.f[self.idx("connected")].v))
+        return obs
+
+    CHECKS = ["wake_stream", "stream_event", "conn_event", "terminate", "poll_recv_datagram", "poll_open_stream", "poll_accept_stream", "stream_stopped", "stream_received_reset",
               "stream_write", "stream_read"]
